@@ -100,6 +100,37 @@ func vmBehaviours(t *testing.T) [][]map[string]any {
 	return out
 }
 
+// vmOnly: optional restriction of a re-execution to some trace numbers (VERIF_ONLY_FILE = JSON list).
+// Skipped traces keep their number (Skip) so that the remaining ones are comparable with the first run.
+func vmOnly(t *testing.T) map[int]bool {
+	p := os.Getenv("VERIF_ONLY_FILE")
+	if p == "" {
+		return nil
+	}
+	b, err := os.ReadFile(p)
+	if err != nil {
+		t.Fatal(err)
+	}
+	var ids []int
+	if err := json.Unmarshal(b, &ids); err != nil {
+		t.Fatal(err)
+	}
+	out := map[int]bool{}
+	for _, i := range ids {
+		out[i] = true
+	}
+	return out
+}
+
+// Skip reports whether the next trace is to be skipped (and then consumes its number).
+func (l *vmLog) Skip(only map[int]bool) bool {
+	if only == nil || only[l.T+1] {
+		return false
+	}
+	l.T++
+	return true
+}
+
 func vmStr(v any) string {
 	s, _ := v.(string)
 	return s
